@@ -279,6 +279,7 @@ let parse_event (line : string) : ev =
                          else (false, None)) in
        WaitCall (getn a "n", keyed, key)
      | "waitret" -> WaitRet (getn a "n", parse_res (get a "res"))
+     | "carrier-marshal-error" -> Stim (StMarshal, n_of_int (geti a "tunnel"), None, [])
      | "harnessfail" -> HarnessFail (getn a "code", getz a "a", getz a "b")
      | "PANIC" -> Panic
      | "skip" -> Skip
